@@ -463,6 +463,20 @@ def run_case(case):
                     pass
             continue
         sb = analysis_summary(base)
+        # a refused request (negative / non-numeric parameter) leaves the completed analysis where it was
+        for badkw in ({'S': -1}, {'S': 'two'}, {'tau_exp': -2.0}, {'N_sigma': -1}, {'S': 1.5, 'tau_exp': -0.5}):
+            try:
+                base.gamma_method(**badkw)
+                acc.fail('meta:refused-request-accepted', dict(sub, request=repr(badkw)), 'gamma_method(%s) was accepted' % (badkw,))
+                break
+            except (ValueError, TypeError):
+                after = analysis_summary(base)
+                bad = None if sorted(after) == sorted(sb) else 'analysed ensembles %s -> %s' % (sorted(sb), sorted(after))
+                bad = bad or compare_summaries(sb, after, 0.0)
+                if bad or after['__tot'] != sb['__tot']:
+                    acc.fail('meta:refused-request-wipes-analysis', dict(sub, request=repr(badkw)), 'after the refused request gamma_method(%s): %s' % (badkw, bad or 'total error %r -> %r' % (sb['__tot'], after['__tot'])))
+                    base.gamma_method(**pars)
+                    break
         ens = [e for e in sb if e != '__tot']
         okb = True
         for e in ens:
